@@ -976,8 +976,39 @@ def lib_argsort(ev, args, kw, st, node):
 
 
 # =============================================================================== masks, dicts, comprehensions
+_mask_memo = {}
+
+
 def mask_select(ev, base, mask, st, node):
-    raise Unsupported("boolean-mask selection")
+    """a[mask]: the order-preserving subsequence of the positions where mask is true.  Modelled by a fresh sequence R with ghost
+    index maps J (position in a of R[j]) and PM (position in R of a kept element):  R[j] == a[J[j]], mask[J[j]], J strictly
+    increasing, and every true position p occurs: J[PM[p]] == p.  The same (a, mask) terms give the same R (determinism)."""
+    if not ev.spec:
+        ev.need("boolean mask: equal lengths", st, mask.n == base.n, node)
+        ev.ctx.trusted.add("lib:numpy boolean-mask selection")
+    key = (id(ev.ctx), tuple(t.sexpr() for t in base.key()), tuple(t.sexpr() for t in mask.key()))
+    if key in _mask_memo:
+        R, Jseq, facts = _mask_memo[key]
+    else:
+        facts = []
+        R = fresh(Sh("seq", [base.esh]), "masked", facts, "array")
+        J = z3.Array(fresh_name("maskidx"), z3.IntSort(), z3.IntSort())
+        PM = z3.Array(fresh_name("maskpos"), z3.IntSort(), z3.IntSort())
+        j, a_, b_, p_ = z3.Int(fresh_name("j")), z3.Int(fresh_name("a")), z3.Int(fresh_name("b")), z3.Int(fresh_name("p"))
+        facts.append(R.n <= base.n)
+        eqs = [x == y for x, y in zip(flatten_val(base.esh, R.at(j)), flatten_val(base.esh, base.at(J[j])))]
+        facts.append(z3.ForAll([j], z3.Implies(z3.And(j >= 0, j < R.n),
+                                               z3.And(J[j] >= 0, J[j] < base.n, mask.at(J[j]).t, PM[J[j]] == j, *eqs))))
+        facts.append(z3.ForAll([a_, b_], z3.Implies(z3.And(0 <= a_, a_ < b_, b_ < R.n), J[a_] < J[b_])))
+        facts.append(z3.ForAll([p_], z3.Implies(z3.And(p_ >= 0, p_ < base.n, mask.at(p_).t), z3.And(PM[p_] >= 0, PM[p_] < R.n, J[PM[p_]] == p_))))
+        Jseq = Seq(R.n, z3.IntVal(0), [J], INT, "array")
+        _mask_memo[key] = (R, Jseq, facts)
+    for f in facts:
+        if not any(f.eq(h) for h in st.pc[-40:]):
+            st.pc.append(f)
+    if not ev.spec:
+        st.env["_last_mask_index"] = Jseq
+    return R
 
 
 def mask_store(ev, base, mask, v, st, node):
@@ -1139,7 +1170,21 @@ def sp_iff(ev, node, st):
 
 @spec("ite")
 def sp_ite(ev, node, st):
-    return ite_val(b2t(ev.ev(node.args[0], st)), ev.ev(node.args[1], st), ev.ev(node.args[2], st))
+    c = b2t(ev.ev(node.args[0], st))
+    arms = []
+    for k, cond in ((1, c), (2, z3.Not(c))):
+        try:
+            arms.append(ev.ev(node.args[k], st))
+        except Unsupported:
+            # an arm naming a variable that does not exist on this path is fine when the path condition excludes the arm
+            if ev.ctx.feasible(st, cond):
+                raise
+            arms.append(None)
+    if arms[0] is None:
+        return arms[1]
+    if arms[1] is None:
+        return arms[0]
+    return ite_val(c, arms[0], arms[1])
 
 
 @spec("old")
